@@ -107,7 +107,8 @@ pub fn replay(args: &[String]) {
             if v.p_total > 1 {
                 let arr2 = build(&a, v, 99);
                 if let Ok((rh2, es2)) = catch(|| split_rhat_mean_ess(arr2.view())) {
-                    let same = |x: f32, y: f32| (x - y).abs() <= 1e-5 * x.abs().max(1e-30) || (x.is_nan() && y.is_nan());
+                    // (equal infinities -- tau exactly zero -- are the same value)
+                    let same = |x: f32, y: f32| x == y || (x - y).abs() <= 1e-5 * x.abs().max(1e-30) || (x.is_nan() && y.is_nan());
                     if !same(rh[v.p_idx], rh2[v.p_idx]) && rhat_bad.len() < 20 {
                         rhat_bad.push(json!({"case": brief(), "variant": v.name, "other_params_changed_rhat": [rh[v.p_idx], rh2[v.p_idx]]}));
                     }
